@@ -27,7 +27,16 @@ def corpus():
             b"RO 7,ABC;ZERO 9", b"RO 7,1;ZERO", b"RO 300;ZERO", b"RO? ABC;ZERO", b"RO? 1 V;ZERO", b"RO 7;ZERO", b"RO 7,'x';ZERO",
             b"ONE (1,2;ZERO 3)", b"ZERO;ONE (1;ZERO);ZERO", b"ONE 'a;b',(1;ZERO", b"ONE (@1;OPT 2),3", b"OPT 1,(2;ZERO),3;ZERO", b"ZERO #H1F", b"ZERO? #Q17;ZERO", b"ZERO #B1,2",
             b"ONE #10,5", b"ONE #10;ZERO 2", b"OPT #10,#200,#10", b"ONE #10 ;ZERO", b"ONE #10"]
-    return [L("v", sub, sc, [m]) for m in msgs]
+    out = [L("v", sub, sc, [m]) for m in msgs]
+    # typed OPTIONAL pulls through next_optional_data::<T>: an element that is present must be offered (converted, or its
+    # conversion error reported), never reported absent — whatever its spelling (DEFault, MAX, a string, out of range)
+    for ty in ("u8", "i16", "f32", "bool", "bytes", "chr", "expr", "u64"):
+        sub2 = [("L", b"TY", False, 1), ("L", b"ZERO", False, 2)]
+        sc2 = {1: (["o:" + ty, "o:" + ty], ["o:" + ty, "o:" + ty, "di1"]), 2: ([], ["di0"])}
+        ms = [b"TY DEF,2;ZERO", b"TY DEFault", b"TY? def", b"TY? 1,DEFAULT;ZERO?", b"TY MAX", b"TY abc,2", b"TY 1,300", b"TY? 'two'", b"TY? 12,'x'", b"TY 1,MIN;ZERO",
+              b"TY UP", b"TY #H10,DOWN", b"TY (1),2", b"TY 1 V", b"TY;ZERO", b"TY 1;ZERO", b"TY ON,OFF", b"TY? NAN,INF"]
+        out += [L("v", sub2, sc2, ms[i:i + 6]) for i in range(0, len(ms), 6)]
+    return out
 
 
 def generate(rng, tier):
